@@ -44,6 +44,17 @@ class AugmentedNodeMixin:
                 "There is a graph property named S-nodes already that is not of type dict."
             )
 
+    def _new_augmented_node_name(self, prefix: str, start: int):
+        """Return a ``(prefix, index)`` name that is not a node of the graph yet.
+
+        The search starts at ``start`` (the number of augmented nodes of that kind), so names
+        stay ``(prefix, 0), (prefix, 1), ...`` as long as no augmented node was removed.
+        """
+        index = start
+        while (prefix, index) in self.nodes:
+            index += 1
+        return (prefix, index)
+
     def add_f_node(self, intervention_set: Set[Node], require_unique=True, domain=None):
         """Add an F-node to the graph.
 
@@ -82,7 +93,7 @@ class AugmentedNodeMixin:
                 )
 
         # add a new F-node into the graph
-        f_node_name = ("F", len(self.f_nodes))
+        f_node_name = self._new_augmented_node_name("F", len(self.f_nodes))
         self.add_node(f_node_name)
 
         # add edge between the F-node and its intervention set
@@ -175,7 +186,7 @@ class AugmentedNodeMixin:
         self.domains.update(domain_ids)
 
         # add a new S-node into the graph
-        s_node_name = ("S", len(self.s_nodes))
+        s_node_name = self._new_augmented_node_name("S", len(self.s_nodes))
         self.add_node(s_node_name, domain_ids=domain_ids)
 
         # add edge between the F-node and its intervention set
